@@ -309,7 +309,7 @@ func worker(d histDesc, g int, keys []hkey, st store, start chan struct{}) []opR
 	pGet, pStore, pFlush, pLen, pPause := 430, 330, 25, 25, 120
 	switch d.Flavour {
 	case "flush-heavy":
-		pGet, pStore, pFlush, pLen, pPause = 420, 300, 120, 20, 90
+		pGet, pStore, pFlush, pLen, pPause = 440, 320, 80, 20, 90
 	case "expiry-edge":
 		pGet, pStore, pFlush, pLen, pPause = 480, 280, 5, 15, 200
 	case "evict":
@@ -411,7 +411,7 @@ func worker(d histDesc, g int, keys []hkey, st store, start chan struct{}) []opR
 			st.put(k, val{ID: o.ID, Key: k.ID, Exp: o.Exp})
 			o.Ret = now()
 			ops = append(ops, o)
-			q := opRec{G: g, Kind: opGet, K: "get", Key: ki}
+			q := opRec{G: g, Kind: opGet, K: "get", Key: ki, B2B: true}
 			q.Call = now()
 			v, exp, ok := st.get(k)
 			q.Ret = now()
@@ -459,6 +459,7 @@ type histStats struct {
 	hitsNearExpiry                                          int // hit returned within 100 us of the value's expiry
 	missAfterExpiry                                         int // miss where the newest completed store had expired before the call
 	missAfterStore                                          int // miss on a key that had a completed store
+	b2b, b2bHit                                             int // lookups right after the goroutine's own store of the key / of those, hits
 	fp                                                      uint64
 }
 
@@ -474,6 +475,12 @@ func analyse(h *history, parts map[int][]opRec) histStats {
 			switch o.Kind {
 			case opGet:
 				s.gets++
+				if o.B2B {
+					s.b2b++
+					if o.Hit {
+						s.b2bHit++
+					}
+				}
 				if o.Hit {
 					s.hits++
 					f.Write([]byte{'h'})
